@@ -108,6 +108,9 @@ def t_embedding(name, D, N, axis, seed):
           "KuramotoSivashinsky": lambda d: S.KuramotoSivashinsky(d, L, N, dt, order=3),
           "FisherKPP": lambda d: R.FisherKPP(d, L, N, dt, order=2),
           "GeneralLinear": lambda d: G.GeneralLinearStepper(d, L, N, dt, linear_coefficients=(-0.3 / d, 0.2, 0.01, -0.05)),
+          # 2D vorticity with drag on a state constant along one axis: the convection vanishes, what remains is the 1D drag + diffusion
+          "NavierStokesVorticity_drag": lambda d: (G.GeneralLinearStepper(1, L, N, dt, linear_coefficients=(-0.3, 0.0, 0.05)) if d == 1 else
+                                                   S.NavierStokesVorticity(2, L, N, dt, diffusivity=0.05, drag=-0.3, order=2)),
           "GeneralNonlinear": lambda d: G.GeneralNonlinearStepper(d, L, N, dt, linear_coefficients=(0.1 / d, 0.0, 0.02), nonlinear_coefficients=(0.3, -0.7, 0.2), order=4)}[name]
     rng = np.random.default_rng(seed)
     v1 = 0.4 * rng.standard_normal((1, N))
@@ -159,7 +162,7 @@ def witness(ctx):
     ctx.check("translation", dict(cls="KuramotoSivashinsky", D=2, N=32, order=2, shift=[5, 17], seed=ctx.seed))
     perms2, perms3 = [(1, 0)], [(1, 2, 0), (1, 0, 2), (2, 1, 0), (0, 2, 1), (2, 0, 1)]
     for cls in ISO_SCALAR + ISO_VECTOR:
-        for (D, N) in ([(2, 7), (2, 32)] if cls in ("Burgers", "KuramotoSivashinsky") else [(2, 7)]) + ([(3, 7 if ctx.seed % 2 else 6)] if deep or cls in ("Burgers", "Diffusion") else []) + ([(2, 8), (2, 11)] if deep else []):
+        for (D, N) in ([(2, 7), (2, 32)] if cls in ("Burgers", "KuramotoSivashinsky") else [(2, 7)]) + ([(3, 7 if ctx.seed % 2 else 6)] if deep or cls in ("Burgers", "Diffusion", "KuramotoSivashinsky", "GeneralGradientNormStepper") else []) + ([(2, 8), (2, 11)] if deep else []):
             for perm in (perms2 if D == 2 else perms3):
                 ctx.check("permutation", dict(cls=cls, D=D, N=N, order=2, perm=list(perm), seed=ctx.seed))
     # non-default forms of the convective steppers (conservative multi-channel, single-channel), all axis permutations in 3D
@@ -175,6 +178,9 @@ def witness(ctx):
     ctx.check("permutation", dict(cls="NavierStokesVorticity", D=2, N=7, order=2, perm=[1, 0], seed=ctx.seed))
     for perm in perms3:
         ctx.check("permutation", dict(cls="NavierStokesVelocity", D=3, N=6 + ctx.seed % 2, order=2, perm=list(perm), seed=ctx.seed))
+    for axis in (0, 1):
+        for N in (8, 11):
+            ctx.check("embedding", dict(name="NavierStokesVorticity_drag", D=2, N=N, axis=axis, seed=ctx.seed))
     for name in ("Diffusion", "Dispersion", "Burgers_single_channel", "KuramotoSivashinsky", "FisherKPP", "GeneralLinear", "GeneralNonlinear"):
         for D in (2, 3):
             for axis in range(D):
